@@ -1474,17 +1474,29 @@ func main() {
 		json.Unmarshal(raw, &rp)
 		c.w = cv.NewWriter(*out, "C04", header, "case", "mismatches", 1)
 		doc, _ := rp.Case["doc"].(string)
-		if v, ok := rp.Case["variant"].(string); ok && v != "" {
-			c.addDoc("replay-base", []byte(doc), "", "")
-			doc = v
+		if a, ok := rp.Case["abi"].(string); ok && a != "" {
+			c.abiCase([]byte(a), nil, "")
+			fmt.Println("implementation: ABItoTypedDataV4 re-run on", a, st.Distribution)
+		} else if kind, _ := rp.Case["kind"].(string); kind == "sign" || rp.Case["rsv"] != nil {
+			kp, _ := secp256k1.NewSecp256k1KeyPair(keccak([]byte("verif-c04-replay-key")))
+			c.signCase([]byte(doc), kp)
+			fmt.Println("implementation: SignTypedDataV4 re-run,", len(st.ImplFailures), "signature oracle failures", st.Distribution)
+		} else {
+			if v, ok := rp.Case["variant"].(string); ok && v != "" {
+				base, _ := c.addDoc("replay-base", []byte(doc), "", "")
+				o, _ := c.addDoc("replay", []byte(v), "", "")
+				fmt.Println("implementation: base", implDesc(base), "variant", implDesc(o))
+				if base.cls != o.cls || !bytes.Equal(base.digest, o.digest) {
+					c.fail("digest of the variant differs from the base document", map[string]interface{}{"doc": doc, "variant": v})
+				}
+			} else if doc == "" {
+				fmt.Println("replay: the case carries no document:", string(raw))
+			} else {
+				pub, _ := rp.Case["published"].(string)
+				o, _ := c.addDoc("replay", []byte(doc), pub, "")
+				fmt.Println("implementation:", implDesc(o))
+			}
 		}
-		if doc == "" {
-			fmt.Println("replay: the case carries no document:", string(raw))
-			os.Exit(0)
-		}
-		pub, _ := rp.Case["published"].(string)
-		o, _ := c.addDoc("replay", []byte(doc), pub, "")
-		fmt.Println("implementation:", implDesc(o))
 		c.w.Flush()
 		st.Write(filepath.Join(*out, "stats_C04.json"))
 		return
